@@ -93,7 +93,10 @@ def floor(ctx):
     ns += [rnd.randrange(4096, 16 ** 8) for _ in range(2000 if ctx.tier == 'quick' else 50000)]
     for n in ns:
         ev += 1
-        r = _check_n(n, spec)
+        try:
+            r = _check_n(n, spec)
+        except Exception as e:
+            r = 'raised %r' % (e,)
         if r and len(viol) < 5:
             viol.append({'clause': 'C16:roundtrip', 'input': {'n': n}, 'detail': r})
     try:
@@ -110,7 +113,10 @@ def floor(ctx):
             want = 0
             for s in tri:
                 want = want * 16 + (spec.index(s) if s in spec else 0)
-            got = G.get_index_from_selfies(*tri)
+            try:
+                got = G.get_index_from_selfies(*tri)
+            except Exception as e:
+                got = 'raised %r' % (e,)
             distinct.add(got)
             if got != want and len(viol) < 10:
                 viol.append({'clause': 'C16:dec', 'input': {'symbols': list(tri)}, 'detail': 'got %r want %r' % (got, want)})
@@ -118,7 +124,10 @@ def floor(ctx):
             present = [s for s in tri if s is not None]
             if len(present) == len(tri) or all(s is None for s in tri[len(present):]):
                 it = iter(list(enumerate(present)))
-                got2 = D._read_index_from_selfies(it, n_symbols=len(tri))
+                try:
+                    got2 = D._read_index_from_selfies(it, n_symbols=len(tri))
+                except Exception as e:
+                    got2 = 'raised %r' % (e,)
                 if got2 != want and len(viol) < 10:
                     viol.append({'clause': 'C16:read-index', 'input': {'symbols': present, 'n_symbols': len(tri)},
                                  'detail': 'got %r want %r' % (got2, want)})
